@@ -4,6 +4,7 @@ cd "$(dirname "$0")" || exit 2
 export CARGO_NET_OFFLINE=true
 LOG=$(mktemp)
 (cd harness && cargo build --offline --release --quiet && cargo build --offline --profile dbg --quiet) > "$LOG" 2>&1 || { cat "$LOG"; rm -f "$LOG"; echo "harness build failed"; exit 1; }
+./cppdrv/build.sh > "$LOG" 2>&1 || { cat "$LOG"; rm -f "$LOG"; echo "C++ driver build failed"; exit 1; }
 cd spec || exit 2
 for m in *.tla; do
   java -cp /opt/veriftools/tla/tla2tools.jar:/opt/veriftools/tla/CommunityModules-deps.jar tla2sany.SANY "$m" > "$LOG" 2>&1 || { cat "$LOG"; rm -f "$LOG"; echo "SANY failed on $m"; exit 1; }
